@@ -944,7 +944,8 @@ class SoftwareSwitchBase (object):
     if isinstance(nw, vlan):
       nw = nw.payload
     if isinstance(nw, ipv4):
-      nw.tos = action.nw_tos
+      # nw_tos carries the 6-bit DSCP field in its upper bits; ECN stays
+      nw.tos = (nw.tos & 0x03) | (action.nw_tos & 0xfc)
     return packet
   def _action_set_tp_src (self, action, packet, in_port):
     nw = packet.payload
